@@ -81,8 +81,20 @@ func Judge(obs *e2e.Obs) (fs []finding, info map[string]int) {
 		diff := []string{}
 		for k, v := range wf {
 			if d.Fields[k] != v {
-				if k == "log" && open[r.Conn] && strings.HasPrefix(v, d.Fields[k]) {
-					continue // the partial last line of a connection still open at the stop
+				if k == "log" && open[r.Conn] {
+					// a connection still open at the stop: the reader legitimately flushes what it has, i.e. the record may be a
+					// proper prefix of the sent line, or the last complete line with the partial next line attached as a
+					// continuation (which also marks it as multi-line, so it is not unescaped)
+					got := d.Fields[k]
+					if strings.HasPrefix(v, got) {
+						continue
+					}
+					if i := strings.Index(got, "\n<"); i >= 0 {
+						head := got[:i]
+						if head == v || (r.Kind == "esc" && head == strings.NewReplacer("\n", "\\n", "\t", "\\t").Replace(v)) {
+							continue
+						}
+					}
 				}
 				diff = append(diff, fmt.Sprintf("%s: got %q want %q", k, cut(d.Fields[k]), cut(v)))
 			}
